@@ -2,14 +2,17 @@ package vuego
 
 import (
 	"fmt"
+	"reflect"
 	"sync"
 
 	"github.com/expr-lang/expr"
 	"github.com/expr-lang/expr/ast"
 	"github.com/expr-lang/expr/builtin"
 	"github.com/expr-lang/expr/vm"
+	"github.com/expr-lang/expr/vm/runtime"
 
 	"github.com/titpetric/vuego/internal/helpers"
+	ireflect "github.com/titpetric/vuego/internal/reflect"
 )
 
 // ExprEvaluator wraps expr for evaluating boolean and interpolated expressions.
@@ -82,7 +85,9 @@ func (e *ExprEvaluator) getProgram(expression string, shadowed []string) (*vm.Pr
 	// Compile the expression
 	options := []expr.Option{expr.AllowUndefinedVariables(), expr.DisableBuiltin("count"),
 		expr.Function(truthyFunc, func(params ...any) (any, error) { return helpers.IsTruthy(params[0]), nil }, new(func(any) bool)),
-		expr.Patch(truthyOperands{})}
+		expr.Patch(truthyOperands{}),
+		expr.Function(memberFunc, fetchMember, new(func(any, any) any)),
+		expr.Patch(structMembers{})}
 	for _, name := range shadowed {
 		options = append(options, expr.DisableBuiltin(name))
 	}
@@ -140,6 +145,45 @@ func (truthyOperands) Visit(node *ast.Node) {
 	case *ast.ConditionalNode:
 		wrap(&n.Cond)
 	}
+}
+
+// memberFunc is the name under which member access on struct values is available to compiled
+// expressions (no identifier either).
+const memberFunc = "member\u00b7"
+
+// structMembers rewrites x.name (and x["name"]) so that a field of a struct value is found the
+// way a variable path finds it: by its Go name or by its JSON tag. The expression library knows
+// Go names only, so {{ user.name }} printed the name while {{ user.name == 'Al' }} failed with
+// "cannot fetch name" and v-if="user.name == 'Al'" was silently false.
+type structMembers struct{}
+
+func (structMembers) Visit(node *ast.Node) {
+	n, ok := (*node).(*ast.MemberNode)
+	if !ok || n.Method || n.Optional {
+		return
+	}
+	if _, ok := n.Property.(*ast.StringNode); !ok {
+		return
+	}
+	ast.Patch(node, &ast.CallNode{Callee: &ast.IdentifierNode{Value: memberFunc}, Arguments: []ast.Node{n.Node, n.Property}})
+}
+
+// fetchMember is member access as the expression library does it, except that a struct (or a
+// pointer to one) is asked by JSON tag as well.
+func fetchMember(params ...any) (any, error) {
+	obj, name := params[0], params[1]
+	if key, ok := name.(string); ok && obj != nil {
+		rv := reflect.ValueOf(obj)
+		for rv.Kind() == reflect.Ptr && !rv.IsNil() {
+			rv = rv.Elem()
+		}
+		if rv.Kind() == reflect.Struct {
+			if v, ok := ireflect.ResolveValue(obj, key); ok {
+				return v, nil
+			}
+		}
+	}
+	return runtime.Fetch(obj, name), nil
 }
 
 // ClearCache clears the program cache (useful for testing or memory management).
